@@ -208,7 +208,15 @@ func golubKahanSVD(inSitu *InSitu, epsilon float64) (Matrix, Matrix, Matrix, err
   H, U, V, _ := householderBidiagonalization.Run(A, computeU, computeV, &inSitu.HouseholderBidiagonalization)
   B := H.Slice(0,n,0,n)
 
-  for p, q := 0, 0; q < n; {
+  // the limit is only reached when intermediate results leave the
+  // floating-point range (NaN, overflow, underflow)
+  maxSteps := 100*(n+1)
+
+  for p, q, step := 0, 0, 0; q < n; step++ {
+
+    if step > maxSteps {
+      return nil, nil, nil, fmt.Errorf("SVD did not converge within %d steps", maxSteps)
+    }
 
     for i := 0; i < n-1; i++ {
       b11 := B.At(i  ,i  ).GetFloat64()
